@@ -50,6 +50,15 @@ impl FC for FImp { fn fc(&self, a: u64) -> u64 { step(self.st, self.id, 23, 9, a
 cglue_trait_group!(GF, FBase, { FA, FB, FC });
 cglue_impl_group!(FImp, GF, { FA, FB }, { FA });
 
+/// group with Clone among the optional traits: a `-> Self` method on a subset cast must keep the others
+#[derive(Clone)]
+pub struct KImp { pub id: u64 }
+impl Mand for KImp { fn mand(&self, a: u64) -> u64 { self.id ^ a } }
+impl Oa for KImp { fn oa(&self, a: u64) -> u64 { self.id ^ a ^ 1 } }
+impl Ob for KImp { fn ob(&self, a: u64) -> u64 { self.id ^ a ^ 2 } }
+cglue_trait_group!(GK, { Mand }, { Oa, Ob, Clone });
+cglue_impl_group!(KImp, GK, { Oa, Ob, Clone });
+
 pub mod generated;
 #[cfg(kani)]
 mod verif {
@@ -118,6 +127,30 @@ mod verif {
             }
         }
         kani::cover!(which == 2, "forward");
+    }
+    #[kani::proof]
+    #[kani::unwind(14)]
+    fn p_cast_clone_keeps_traits() {
+        // cast to a strict subset, use a `-> Self` method (clone), cast back: every optional trait is still there
+        let (id, a): (u64, u64) = kani::any();
+        let g = group_obj!(KImp { id } as GK);
+        let w0 = words(&g);
+        let c = cast!(g impl Clone).unwrap();
+        let c2 = c.clone();
+        let back = c2.upcast();
+        assert!(check!(back impl Oa) && check!(back impl Ob) && check!(back impl Oa + Ob + Clone), "C08 a clone taken through a subset cast still has every optional trait after casting back");
+        assert!(as_ref!(back impl Ob).unwrap().ob(a) == id ^ a ^ 2 && back.mand(a) == id ^ a, "C08 and dispatches to its own instance");
+        let orig = c.upcast();
+        let w1 = words(&orig);
+        assert!(w1[0] == w0[0] && w1[1] == w0[1] && w1[2] == w0[2] && w1[3] == w0[3], "C08 the original keeps all its vtable pointers");
+        let wb = words(&back);
+        assert!(wb[0] == w0[0] && wb[1] == w0[1] && wb[2] == w0[2] && wb[3] == w0[3], "C08 the clone carries the same vtable pointers as the original group");
+        let mut m = orig;
+        {
+            let r = as_mut!(m impl Oa).unwrap();
+            assert!(r.oa(a) == id ^ a ^ 1 && r.mand(a) == id ^ a, "C08 as_mut on a strict subset dispatches to the same instance");
+        }
+        kani::cover!(true, "end");
     }
     #[kani::proof]
     fn canary_c08() {
